@@ -202,6 +202,7 @@ def _oracle(ctx):
                         continue
                     err, info = r
                     ctx.count((key, desc, info), nontrivial=bool(info['neumann_facets']) and bool(info['dirichlet_facets']))
+                    ctx.hist('facet_selectors', info['facet_selectors'].split(':')[0][:40])
                     stats['patch'] = max(stats['patch'], err)
                     if err > worst.get(key, 0):
                         worst[key] = err
@@ -240,7 +241,9 @@ def _oracle(ctx):
                         ('subdomain-arg', lambda: O.projection_subdomain(m, elem, rng, via_argument=True))]
                 if kind not in ('line', 'wedge'):
                     runs += [('boundary', lambda: O.projection_boundary(m, elem, rng)),
-                             ('boundary-arg', lambda: O.projection_boundary(m, elem, rng, explicit=True))]
+                             ('boundary-arg', lambda: O.projection_boundary(m, elem, rng, explicit=True)),
+                             ('boundary-collection', lambda: O.projection_boundary(m, elem, rng, collection=True)),
+                             ('boundary-collection-arg', lambda: O.projection_boundary(m, elem, rng, explicit=True, collection=True))]
                 for what, fn in runs:
                     key = f'project:{what}:{kind}:{type(elem).__name__}'
                     r = _guard(ctx, key, {'mesh': desc}, fn)
